@@ -272,8 +272,10 @@ class APIConnection:
 
         Safe to call multiple times.
         """
-        if self.connection_state is CONNECTION_STATE_CLOSED:
-            return
+        # No early return when already closed: every step below is idempotent,
+        # and a connect phase that was completing in the same event loop turn as
+        # the close may have attached a socket, a frame helper or the keep alive
+        # timer after the first cleanup ran.
         was_connected = self.is_connected
         self._set_connection_state(CONNECTION_STATE_CLOSED)
         if self._debug_enabled:
@@ -466,6 +468,7 @@ class APIConnection:
             raise HandshakeAPIError(f"Handshake failed: {err}") from err
         finally:
             handshake_handle.cancel()
+        self._raise_if_closed()
         self._set_connection_state(CONNECTION_STATE_HANDSHAKE_COMPLETE)
 
     async def _connect_hello_login(self, login: bool) -> None:
@@ -607,6 +610,7 @@ class APIConnection:
                 self._start_connect_future, ConnectionInterruptedError, None
             ):
                 await self._do_connect()
+            self._raise_if_closed()
         except (Exception, CancelledError) as ex:
             # If the task was cancelled, we need to clean up the connection
             # and raise the CancelledError as APIConnectionError
@@ -615,6 +619,17 @@ class APIConnection:
         finally:
             self._set_start_connect_future()
         self._set_connection_state(CONNECTION_STATE_SOCKET_OPENED)
+
+    def _raise_if_closed(self) -> None:
+        """Raise if the connection was closed while a connect phase was completing.
+
+        A disconnect or fatal error can take effect in the same event loop
+        turn in which the awaited step of a connect phase completes. The
+        interrupt callback then runs too late to cancel the phase, so the
+        phase must not advance the state of (reopen) a closed connection.
+        """
+        if self.connection_state is CONNECTION_STATE_CLOSED:
+            raise ConnectionInterruptedError
 
     def _set_start_connect_future(self) -> None:
         if (
@@ -674,6 +689,7 @@ class APIConnection:
                 self._finish_connect_future, ConnectionInterruptedError, None
             ):
                 await self._do_finish_connect(login)
+            self._raise_if_closed()
         except (Exception, CancelledError) as ex:
             # If the task was cancelled, we need to clean up the connection
             # and raise the CancelledError as APIConnectionError
